@@ -1,5 +1,5 @@
 (** C06 - struct fields keep WGSL order, names and element types. *)
-From W2W Require Import Wf StructSpec C06Spec C06Proof C06Named.
+From W2W Require Import Wf StructSpec C06Spec C06Proof C06Named C06Repr C06ReprProof.
 
 (** For every wf module the generator accepts and every option set: each emitted struct lists the
     non-builtin members in order under the same names; a trailing runtime-sized array becomes a
@@ -56,3 +56,22 @@ Theorem C06_leaf_table : forall m mv fuel t r,
     (if is_nonsquare_matrix m fuel t && not_nalgebra mv then denote r = transpose_mats s else denote r = s).
 Proof. exact rust_type_shape. Qed.
 Print Assumptions C06_leaf_table.
+
+(** "Under the selected representation": every field is written in the family of types the options select - plain arrays
+    only; glam types exactly where glam has a type of the member's shape (falling back to plain arrays elsewhere); nalgebra
+    SVector / SMatrix for every vector / matrix - through arrays and runtime-sized arrays, whatever the derive switches
+    and whatever the struct is used for. With the shape theorem above this fixes each field's type. *)
+Theorem C06_holds_repr : forall m src inc o out_,
+  wf m = true -> gen m src inc o = Ok out_ -> C06_repr_ok m o out_ = true.
+Proof. exact C06_repr_gen. Qed.
+Print Assumptions C06_holds_repr.
+
+(** the predicate discriminates: under glam a vec4<f32> member written as [f32; 4] (same shape) is rejected, a mat2x3<f32>
+    member (no glam equivalent) must be plain arrays *)
+Example C06_repr_discriminates :
+  leaf_repr_ok MVGlam (SArr 4 (SScalar PF32)) (RArr (RPrim PF32) 4) = false /\
+  leaf_repr_ok MVGlam (SArr 4 (SScalar PF32)) (RGlam GVec4) = true /\
+  leaf_repr_ok MVGlam (SArr 2 (SArr 3 (SScalar PF32))) (RArr (RArr (RPrim PF32) 2) 3) = true /\
+  leaf_repr_ok MVRust (SArr 4 (SScalar PF32)) (RGlam GVec4) = false /\
+  leaf_repr_ok MVNalgebra (SArr 4 (SScalar PF32)) (RArr (RPrim PF32) 4) = false.
+Proof. repeat split; vm_compute; reflexivity. Qed.
